@@ -341,15 +341,42 @@ def u10Cfg : NRConfig α :=
 def u10FromBulkRate (F : α → α) (bulkRate guessU10 guessDir : α) : Option α × α :=
   if bulkRate == 0 then (some 0, guessDir) else (newtonRaphson F u10Cfg guessU10, guessDir)
 
-/-- `_bulk_dissipation_direction_point`: dissipation-weighted wavenumber direction (degrees) and bulk rate -/
-def dissipationDirection (flr : α → α) (g : Grid α) (kin : Kin α) (D : List (List α)) : α × α :=
+/-- the stress balance as a total function: a raised evaluation is passed on as the value `nan` -/
+def balanceTotal (nan : α) (flr : α → α) (p : GenP α) (g : Grid α) (kin : Kin α) (E : List (List α)) (w : Wind α) (lz : α) : α :=
+  match stressBalance flr p g kin E w lz with
+  | some v => v
+  | none => nan
+
+/-- `roughness_length` of the ST4 generation for one point (`none` = NaN); zero wind gives NaN -/
+def roughnessOf (nan : α) (flr : α → α) (p : GenP α) (g : Grid α) (kin : Kin α) (E : List (List α)) (w : Wind α) (guess : α) :
+    Option α :=
+  if w.speed == 0 then none else roughness (balanceTotal nan flr p g kin E w) p w guess
+
+/-- `_u10_iteration_function`: bulk wind input at `u10` (with the roughness the spectrum supports at
+that wind, guess reset for every evaluation) minus the target minus the rate of change in the
+actively forced bins -/
+def u10Balance (nan : α) (flr : α → α) (p : GenP α) (g : Grid α) (kin : Kin α) (E : List (List α))
+    (dirDeg target : α) (dEdt : List (List α)) (u10 : α) : α :=
+  if u10 == 0 then -target else
+  let w : Wind α := { speed := u10, dirDeg := dirDeg, isU10 := true }
+  match roughnessOf nan flr p g kin E w (-1) with
+  | none => nan
+  | some z0 =>
+    let gen := st4Input flr p g kin E w z0
+    bulk g gen - target - activeRegionDerivative g dEdt gen
+
+/-- dissipation-weighted wavenumber vector `−Σ k (cos θ, sin θ) D Δf Δθ` -/
+def dissipationVector (g : Grid α) (kin : Kin α) (D : List (List α)) : α × α :=
   let comp (trig : α → α) : α :=
     lsum (List.zipWith (fun (row : List α) (kd : α × α) =>
       lsum (List.zipWith (fun (d : α) (td : α × α) => kd.1 * trig td.1 * d * kd.2 * td.2) row (g.theta.zip g.dth)))
       D (kin.k.zip g.df))
-  let kx := -(comp Transc.cos)
-  let ky := -(comp Transc.sin)
-  (mod360 flr (Transc.atan2 ky kx * ((180 : Nat) : α) / Transc.pi), bulk g D)
+  (-(comp Transc.cos), -(comp Transc.sin))
+
+/-- `_bulk_dissipation_direction_point`: dissipation-weighted wavenumber direction (degrees) and bulk rate -/
+def dissipationDirection (flr : α → α) (g : Grid α) (kin : Kin α) (D : List (List α)) : α × α :=
+  let v := dissipationVector g kin D
+  (mod360 flr (Transc.atan2 v.2 v.1 * ((180 : Nat) : α) / Transc.pi), bulk g D)
 
 /-! ### Charnock roughness (`wavephysics/roughness.py`) -/
 
